@@ -20,3 +20,13 @@ func verifTrace(ev *Evaler, fm *Frame, point string) {
 		f(ev, fm, point)
 	}
 }
+
+// VerifMuHeld reports whether anybody holds ev.mu (read or write) at the moment of the call.
+// Meant to be called from inside VerifTrace at the modules.* points to record the lock discipline.
+func VerifMuHeld(ev *Evaler) bool {
+	if ev.mu.TryLock() {
+		ev.mu.Unlock()
+		return false
+	}
+	return true
+}
